@@ -932,6 +932,11 @@ class KmipEngine(object):
                 field = "sensitive"
 
             if field:
+                if not hasattr(managed_object, field):
+                    raise exceptions.InvalidField(
+                        "The {0} attribute cannot be set on this "
+                        "object.".format(attribute_name)
+                    )
                 existing_value = getattr(managed_object, field)
                 if existing_value:
                     if existing_value != value:
